@@ -22,10 +22,10 @@ HASHSEEDS = ["0", "1", "2", "3"]
 
 BUDGET = {
     # prop: (quick runs, thorough runs)
-    "C01": (1600, 24000), "C02": (1600, 24000), "C03": (1200, 16000), "C04": (1200, 16000),
-    "C05": (1600, 24000), "C06": (600, 8000), "C07": (800, 12000), "C08": (240, 3000),
+    "C01": (5000, 100000), "C02": (5000, 100000), "C03": (4000, 80000), "C04": (4000, 80000),
+    "C05": (5000, 100000), "C06": (2400, 40000), "C07": (4000, 60000), "C08": (2000, 30000),
     "C09": (240, 3000), "C10": (600, 8000), "C11": (600, 8000), "C16": (600, 8000),
-    "C17": (160, 1600), "C18": (800, 12000), "C19": (600, 8000),
+    "C17": (160, 1600), "C18": (4000, 60000), "C19": (600, 8000),
 }
 
 
